@@ -108,6 +108,13 @@ Fixpoint advc (nix : list nentry) (j : idx) : Z :=
 Definition n_arr (nix : list nentry) : nat := length (filter is_narr nix).
 Definition opt_a (seen : bool) (a : Z) : option Z := if seen then Some a else None.
 
+(* all index arrays of the normalised index have one length *)
+Definition arrs_ok (nix : list nentry) : Prop :=
+  forall l l', In (NArr l) nix -> In (NArr l') nix -> length l = length l'.
+
+Lemma arrs_ok_tail e r : arrs_ok (e :: r) -> arrs_ok r.
+Proof. intros H l l' Hl Hl'. apply H; right; assumption. Qed.
+
 Lemma zat_range_list s e st q :
   st <> 0 -> 0 <= q < Z.of_nat (length (range_list s e st)) -> zat (range_list s e st) q = s + q * st.
 Proof. intros Hst Hq. apply range_list_zat. rewrite range_list_length in Hq. pose proof (range_len_nonneg s e st Hst). lia. Qed.
@@ -117,76 +124,90 @@ Proof. intros Hst. rewrite range_list_length. pose proof (range_len_nonneg s e s
 
 (* a selected element lands on an in-range result index whose NumPy source index is the element *)
 Lemma build_src (nix : list nentry) : forall (sh : shape) (seen : bool) (t : idx) (a : Z),
-  nwf nix sh -> (n_arr nix <= (if seen then 0 else 1))%nat -> matches nix t a = true ->
+  nwf nix sh -> matches nix t a = true ->
   in_range (out_shape_aux seen (map to_r nix)) (build nix seen t a)
   /\ src_aux (opt_a seen a) (map to_r nix) (build nix seen t a) = t.
 Proof.
-  induction nix as [|e r IH]; intros sh seen t a Hwf Hn Hm.
+  induction nix as [|e r IH]; intros sh seen t a Hwf Hm.
   - destruct t; [|discriminate]. simpl. auto.
   - destruct e as [i|s e st| |l]; cbn [nwf matches] in Hwf, Hm.
     + destruct sh as [|d sh']; [contradiction|]. destruct Hwf as [Hi Hwf]. destruct t as [|c t']; [discriminate|].
       apply andb_true_iff in Hm. destruct Hm as [Hc Hm]. apply Z.eqb_eq in Hc. subst c.
-      destruct (IH sh' seen t' a Hwf Hn Hm) as [H1 H2]. cbn [map to_r out_shape_aux build src_aux tl]. split; [assumption|].
+      destruct (IH sh' seen t' a Hwf Hm) as [H1 H2]. cbn [map to_r out_shape_aux build src_aux tl]. split; [assumption|].
       rewrite H2. reflexivity.
     + destruct sh as [|d sh']; [contradiction|]. destruct Hwf as [Hst [Hr Hwf]]. destruct t as [|c t']; [discriminate|].
       apply andb_true_iff in Hm. destruct Hm as [Hc Hm].
-      destruct (IH sh' seen t' a Hwf Hn Hm) as [H1 H2].
+      destruct (IH sh' seen t' a Hwf Hm) as [H1 H2].
       destruct (in_row_index s e st c Hst Hc) as [Hq Hcq].
       cbn [map to_r out_shape_aux build src_aux tl hd]. rewrite coord_map_spec by assumption.
       rewrite len_range_list by assumption. split; [cbn [in_range]; split; [lia|assumption]|].
       cbn [hd tl]. rewrite H2. rewrite zat_range_list by (rewrite ?len_range_list; assumption || lia). rewrite Hcq. reflexivity.
-    + destruct (IH sh seen t a Hwf Hn Hm) as [H1 H2].
+    + destruct (IH sh seen t a Hwf Hm) as [H1 H2].
       cbn [map to_r out_shape_aux build src_aux tl hd]. split; [cbn [in_range]; split; [lia|assumption]|]. exact H2.
     + destruct sh as [|d sh']; [contradiction|]. destruct Hwf as [Hl Hwf]. destruct t as [|c t']; [discriminate|].
-      destruct seen; [unfold n_arr in Hn; simpl in Hn; lia|].
       apply andb_true_iff in Hm. destruct Hm as [Hm1 Hm]. apply andb_true_iff in Hm1. destruct Hm1 as [Hm1 Hz].
-      apply Z.eqb_eq in Hz. assert (Hn' : (n_arr r <= 0)%nat) by (unfold n_arr in *; simpl in Hn; lia).
-      destruct (IH sh' true t' a Hwf Hn' Hm) as [H1 H2].
-      cbn [map to_r out_shape_aux build src_aux tl hd opt_a]. split; [cbn [in_range]; split; [lia|assumption]|].
-      cbn [opt_a] in H2. rewrite H2, Hz. reflexivity.
+      apply Z.eqb_eq in Hz.
+      destruct (IH sh' true t' a Hwf Hm) as [H1 H2]. cbn [opt_a] in H2.
+      destruct seen; cbn [map to_r out_shape_aux build src_aux tl hd opt_a].
+      * split; [assumption|]. rewrite H2, Hz. reflexivity.
+      * split; [cbn [in_range]; split; [lia|assumption]|]. rewrite H2, Hz. reflexivity.
 Qed.
 
 (* an in-range result index comes from exactly the element at its NumPy source index *)
 Lemma src_build (nix : list nentry) : forall (sh : shape) (seen : bool) (j : idx) (a0 : Z),
-  nwf nix sh -> (n_arr nix <= (if seen then 0 else 1))%nat ->
+  nwf nix sh -> arrs_ok nix ->
+  (seen = true -> forall l, In (NArr l) nix -> 0 <= a0 < Z.of_nat (length l)) ->
   in_range (out_shape_aux seen (map to_r nix)) j ->
   let a := if seen then a0 else advc nix j in
   let t := src_aux (opt_a seen a0) (map to_r nix) j in
   matches nix t a = true /\ build nix seen t a = j /\ in_range sh t.
 Proof.
-  induction nix as [|e r IH]; intros sh seen j a0 Hwf Hn Hj.
+  induction nix as [|e r IH]; intros sh seen j a0 Hwf Hn Hb Hj.
   - simpl in *. subst sh. destruct j; [|contradiction]. simpl. auto.
-  - destruct e as [i|s e st| |l]; cbn [nwf] in Hwf.
+  - pose proof (arrs_ok_tail _ _ Hn) as Hn'.
+    assert (Hb' : seen = true -> forall l, In (NArr l) r -> 0 <= a0 < Z.of_nat (length l))
+      by (intros Hs l Hl; apply (Hb Hs); right; exact Hl).
+    destruct e as [i|s e st| |l]; cbn [nwf] in Hwf.
     + destruct sh as [|d sh']; [contradiction|]. destruct Hwf as [Hi Hwf].
-      cbn [map to_r out_shape_aux] in Hj. destruct (IH sh' seen j a0 Hwf Hn Hj) as [H1 [H2 H3]].
+      cbn [map to_r out_shape_aux] in Hj. destruct (IH sh' seen j a0 Hwf Hn' Hb' Hj) as [H1 [H2 H3]].
       cbn [map to_r src_aux advc matches build tl in_range]. rewrite Z.eqb_refl. cbn [andb]. auto.
     + destruct sh as [|d sh']; [contradiction|]. destruct Hwf as [Hst [Hr Hwf]].
       cbn [map to_r out_shape_aux] in Hj. destruct j as [|q j']; [contradiction|]. cbn [in_range] in Hj. destruct Hj as [Hq Hj].
       rewrite len_range_list in Hq by assumption.
-      destruct (IH sh' seen j' a0 Hwf Hn Hj) as [H1 [H2 H3]].
+      destruct (IH sh' seen j' a0 Hwf Hn' Hb' Hj) as [H1 [H2 H3]].
       destruct (index_in_row s e st q Hst Hq) as [Hrow Hdiv].
       cbn [map to_r src_aux advc matches build tl hd in_range].
       rewrite zat_range_list by (rewrite ?len_range_list; assumption || lia).
       rewrite Hrow, coord_map_spec, Hdiv by assumption. cbn [andb]. split; [assumption|]. split; [rewrite H2; reflexivity|].
       split; [|assumption]. apply Hr. apply in_row_In; assumption.
     + cbn [map to_r out_shape_aux] in Hj. destruct j as [|q j']; [contradiction|]. cbn [in_range] in Hj. destruct Hj as [Hq Hj].
-      destruct (IH sh seen j' a0 Hwf Hn Hj) as [H1 [H2 H3]].
+      destruct (IH sh seen j' a0 Hwf Hn' Hb' Hj) as [H1 [H2 H3]].
       cbn [map to_r src_aux advc matches build tl hd]. split; [assumption|]. split; [|assumption].
       rewrite H2. f_equal. lia.
     + destruct sh as [|d sh']; [contradiction|]. destruct Hwf as [Hl Hwf].
-      destruct seen; [unfold n_arr in Hn; simpl in Hn; lia|].
-      assert (Hn' : (n_arr r <= 0)%nat) by (unfold n_arr in *; simpl in Hn; lia).
-      cbn [map to_r out_shape_aux] in Hj. destruct j as [|q j']; [contradiction|]. cbn [in_range] in Hj. destruct Hj as [Hq Hj].
-      destruct (IH sh' true j' q Hwf Hn' Hj) as [H1 [H2 H3]].
-      cbn [map to_r src_aux advc matches build tl hd opt_a in_range]. cbn [opt_a] in H1, H2, H3.
-      rewrite H1, H2, Z.eqb_refl.
-      destruct (Z.leb_spec 0 q); [|lia]. destruct (Z.ltb_spec q (Z.of_nat (length l))); [|lia]. cbn [andb].
-      split; [reflexivity|]. split; [reflexivity|]. split; [|assumption].
-      apply Hl. unfold zat. apply nth_In. lia.
+      destruct seen.
+      * (* a later array: reads the shared coordinate a0 *)
+        cbn [map to_r out_shape_aux] in Hj.
+        destruct (IH sh' true j a0 Hwf Hn' Hb' Hj) as [H1 [H2 H3]]. cbn [opt_a] in H1, H2, H3.
+        pose proof (Hb eq_refl l (or_introl eq_refl)) as Ha0.
+        cbn [map to_r src_aux advc matches build tl hd opt_a in_range].
+        rewrite H1, H2, Z.eqb_refl.
+        destruct (Z.leb_spec 0 a0); [|lia]. destruct (Z.ltb_spec a0 (Z.of_nat (length l))); [|lia]. cbn [andb].
+        split; [reflexivity|]. split; [reflexivity|]. split; [|assumption].
+        apply Hl. unfold zat. apply nth_In. lia.
+      * cbn [map to_r out_shape_aux] in Hj. destruct j as [|q j']; [contradiction|]. cbn [in_range] in Hj. destruct Hj as [Hq Hj].
+        assert (Hbq : true = true -> forall l', In (NArr l') r -> 0 <= q < Z.of_nat (length l')).
+        { intros _ l' Hl'. rewrite <- (Hn l l' (or_introl eq_refl) (or_intror Hl')). exact Hq. }
+        destruct (IH sh' true j' q Hwf Hn' Hbq Hj) as [H1 [H2 H3]].
+        cbn [map to_r src_aux advc matches build tl hd opt_a in_range]. cbn [opt_a] in H1, H2, H3.
+        rewrite H1, H2, Z.eqb_refl.
+        destruct (Z.leb_spec 0 q); [|lia]. destruct (Z.ltb_spec q (Z.of_nat (length l))); [|lia]. cbn [andb].
+        split; [reflexivity|]. split; [reflexivity|]. split; [|assumption].
+        apply Hl. unfold zat. apply nth_In. lia.
 Qed.
 
 Lemma advc_build (nix : list nentry) : forall (t : idx) (a : Z),
-  (n_arr nix = 1)%nat -> matches nix t a = true -> advc nix (build nix false t a) = a.
+  (n_arr nix <> 0)%nat -> matches nix t a = true -> advc nix (build nix false t a) = a.
 Proof.
   induction nix as [|e r IH]; intros t a Hn Hm; [unfold n_arr in Hn; simpl in Hn; lia|].
   destruct e as [i|s e st| |l]; cbn [matches] in Hm; unfold n_arr in *; cbn [filter is_narr length] in Hn.
@@ -398,7 +419,7 @@ Section Final.
   Let rs := map to_r nix.
   Hypothesis Hcan : canonical V x.
   Hypothesis Hwf : nwf nix sh.
-  Hypothesis Harr : (n_arr nix <= 1)%nat.
+  Hypothesis Harr : arrs_ok nix.
 
   Variable m : list (nat * Z).
   Hypothesis Hm_nodup : NoDup m.
@@ -425,7 +446,7 @@ Section Final.
   Proof.
     intros H. unfold sel_entries in H. rewrite map_map in H. apply in_map_iff in H.
     destruct H as [[p a] [<- Hin]]. apply Hm_mem in Hin. destruct Hin as [Hp [Hmt _]].
-    apply (build_src nix sh false _ a Hwf Harr Hmt).
+    apply (build_src nix sh false _ a Hwf Hmt).
   Qed.
 
   Lemma sel_spec j v :
@@ -434,10 +455,10 @@ Section Final.
     intros Hj. split.
     - intros H. apply in_map_iff in H. destruct H as [[p a] [He Hin]]. unfold sel_entry in He. simpl in He.
       inversion He; subst j v. clear He. apply Hm_mem in Hin. destruct Hin as [Hp [Hmt _]].
-      destruct (build_src nix sh false _ a Hwf Harr Hmt) as [_ Hsrc]. cbn [opt_a] in Hsrc.
+      destruct (build_src nix sh false _ a Hwf Hmt) as [_ Hsrc]. cbn [opt_a] in Hsrc.
       unfold pt in Hsrc. unfold src_of, rs. rewrite Hsrc. apply entries_x. exists p. auto.
     - intros H. apply entries_x in H. destruct H as [p [Hp [Hpt Hv]]].
-      destruct (src_build nix sh false j 0 Hwf Harr Hj) as [Hmt [Hb _]]. cbn [opt_a] in Hmt, Hb.
+      destruct (src_build nix sh false j 0 Hwf Harr ltac:(discriminate) Hj) as [Hmt [Hb _]]. cbn [opt_a] in Hmt, Hb.
       fold rs in Hmt, Hb. change (src_aux None rs j) with (src_of rs j) in Hmt, Hb.
       apply in_map_iff. exists (p, advc nix j). split.
       + unfold sel_entry. simpl. fold (pt pts p). rewrite Hpt, Hb, Hv. reflexivity.
@@ -449,32 +470,36 @@ Section Final.
     unfold sel_entries. rewrite map_map. apply NoDup_map_inj_in; [exact Hm_nodup|].
     intros [p a] [p' a'] Hin Hin' He. simpl in He.
     apply Hm_mem in Hin, Hin'. destruct Hin as [Hp [Hmt Ha]], Hin' as [Hp' [Hmt' Ha']].
-    destruct (build_src nix sh false _ a Hwf Harr Hmt) as [_ Hs1].
-    destruct (build_src nix sh false _ a' Hwf Harr Hmt') as [_ Hs2]. cbn [opt_a] in Hs1, Hs2.
+    destruct (build_src nix sh false _ a Hwf Hmt) as [_ Hs1].
+    destruct (build_src nix sh false _ a' Hwf Hmt') as [_ Hs2]. cbn [opt_a] in Hs1, Hs2.
     fold (pt pts p) in He. fold (pt pts p') in He.
     assert (Hpp : pt pts p = pt pts p') by (rewrite <- Hs1, <- Hs2, He; reflexivity).
     assert (p = p').
     { unfold pt in Hpp. apply (proj1 (NoDup_nth pts []) pts_nodup); assumption. }
     subst p'. f_equal.
     destruct (Nat.eq_dec (n_arr nix) 0) as [E|E]; [rewrite Ha, Ha' by assumption; reflexivity|].
-    assert (E1 : n_arr nix = 1%nat) by lia.
-    rewrite <- (advc_build nix _ a E1 Hmt), <- (advc_build nix _ a' E1 Hmt'), He. reflexivity.
+    rewrite <- (advc_build nix _ a E Hmt), <- (advc_build nix _ a' E Hmt'), He. reflexivity.
   Qed.
 
   (* any arrangement of the selected entries whose keys are strictly sorted is the canonical result *)
   Lemma result_den (es' : list (idx * V)) :
     Permutation sel_entries es' -> StronglySorted lex_lt (map fst es') ->
     let y := mkCOO (out_shape rs) (map fst es') (map snd es') (c_fill x) in
-    canonical V y /\ forall j, in_range (out_shape rs) j -> den y j = den x (src_of rs j).
+    canonical V y /\ (forall j, in_range (out_shape rs) j -> den y j = den x (src_of rs j))
+    /\ (forall j v, in_range (out_shape rs) j -> (In (j, v) (entries y) <-> In (src_of rs j, v) (entries x))).
   Proof.
     intros Hperm Hss y.
     assert (Hcy : canonical V y).
     { unfold canonical, y. simpl. split; [|split; [assumption|rewrite !map_length; reflexivity]].
       apply Forall_forall. intros k Hk. apply sel_keys_in_range.
       eapply Permutation_in; [apply Permutation_sym, Permutation_map; exact Hperm|assumption]. }
-    split; [assumption|]. intros j Hj.
     assert (Hey : entries y = es').
     { unfold entries, y. simpl. clear. induction es' as [|[a b] r IH]; simpl; congruence. }
+    split; [assumption|]. split.
+    2: { intros j v Hj. rewrite Hey. rewrite <- (sel_spec j v Hj). split; intros H.
+         - eapply Permutation_in; [apply Permutation_sym; exact Hperm|exact H].
+         - eapply Permutation_in; [exact Hperm|exact H]. }
+    intros j Hj.
     destruct (in_dec (list_eq_dec Z.eq_dec) (src_of rs j) (c_coords x)) as [Hin|Hnin].
     - assert (exists v, In (src_of rs j, v) (entries x)) as [v Hv].
       { fold pts in Hin. apply (In_nth _ _ []) in Hin. destruct Hin as [p [Hp Hpt]].
@@ -809,14 +834,15 @@ Proof. intros H Hp. rewrite Forall_forall in H. apply H. apply nth_In. exact Hp.
 Section GetitemBasic.
   Variable V : Type.
 
-  Theorem coo_getitem_basic_proof (kf : nat -> nat) (x : coo V) (ix : index) :
+  Theorem coo_getitem_basic_strong (kf : nat -> nat) (x : coo V) (ix : index) :
     canonical V x -> shape_okb (c_shape x) = true -> no_zero_step ix = true -> basic ix = true ->
     match np_index (c_shape x) ix with
     | Raise e => getitem kf x ix = Raise e /\ e = IndexError
     | Ok (sh', g) =>
       match getitem kf x ix with
       | Ok (GArr y) => c_shape y = sh' /\ c_fill y = c_fill x /\ canonical V y
-                       /\ forall j, in_range sh' j -> den y j = den x (g j)
+                       /\ (forall j, in_range sh' j -> den y j = den x (g j))
+                       /\ (forall j v, in_range sh' j -> (In (j, v) (entries y) <-> In (g j, v) (entries x)))
       | Ok (GScalar v) => sh' = [] /\ v = den x (g [])
       | Raise _ => False
       end
@@ -833,7 +859,8 @@ Section GetitemBasic.
     assert (Hwf : nwf nix sh) by (apply norm_all_nwf; auto; eapply expand_nzs; eauto).
     assert (Hna : no_arr nix = true) by (apply basic_norm_no_arr; eapply basic_expand; eauto).
     assert (Hn0 : n_arr nix = 0%nat) by (apply no_arr_n_arr; assumption).
-    assert (Harr : (n_arr nix <= 1)%nat) by (rewrite Hn0; repeat constructor).
+    assert (Harr : arrs_ok nix).
+    { intros l l' Hl _. exfalso. unfold no_arr in Hna. rewrite forallb_forall in Hna. specialize (Hna _ Hl). discriminate. }
     rewrite Hr. cbn [bind]. unfold broadcast. rewrite (adv_lens_no_adv _ (to_r_no_adv nix Hna)). cbn [bcast_len fold_right forallb bind].
     rewrite (stretch_no_adv _ _ (to_r_no_adv nix Hna)). set (rs := map to_r nix).
     unfold getitem. fold sh. rewrite Hn. cbn [bind].
@@ -841,8 +868,9 @@ Section GetitemBasic.
     - (* x itself *)
       destruct (all_full_true nix sh Eaf) as [El Ef].
       destruct (all_full_id nix sh Hsh Ef El) as [H1 H2]. fold rs in H1, H2.
-      split; [symmetry; exact H1|]. split; [reflexivity|]. split; [exact Hcan|].
-      intros j Hj. rewrite H2; [reflexivity|]. rewrite <- H1. exact Hj.
+      split; [symmetry; exact H1|]. split; [reflexivity|]. split; [exact Hcan|]. split.
+      + intros j Hj. rewrite H2; [reflexivity|]. rewrite <- H1. exact Hj.
+      + intros j v Hj. rewrite H2; [reflexivity|]. rewrite <- H1. exact Hj.
     - (* the mask *)
       pose proof Hcan as [Hrange [Hsorted Hlen]].
       set (pts := c_coords x) in *. set (inds := flat_map triple_of (prune_indices nix sh)).
@@ -882,16 +910,17 @@ Section GetitemBasic.
       rewrite Hes. rewrite (build_shape_eq nix sh false 0 Hwf)
         by (intros l Hl; exfalso; unfold no_arr in Hna; rewrite forallb_forall in Hna; specialize (Hna _ Hl); discriminate).
       fold rs. change (out_shape_aux false rs) with (out_shape rs).
-      pose proof (sel_keys_nodup V x nix Hcan Hwf Harr m Hm_nodup Hm_mem) as Hknd.
-      pose proof (sel_keys_in_range V x nix Hwf Harr m Hm_mem) as Hkr. fold rs in Hkr.
+      pose proof (sel_keys_nodup V x nix Hcan Hwf m Hm_nodup Hm_mem) as Hknd.
+      pose proof (sel_keys_in_range V x nix Hwf m Hm_mem) as Hkr. fold rs in Hkr.
       destruct (out_shape rs) as [|d0 osh] eqn:Eos.
       + (* 0-d result *)
         assert (Hknil : forall k, In k (map fst (sel_entries V x nix m)) -> k = []) by (intros k Hk; apply in_range_nil, Hkr, Hk).
         destruct (last_is_ellipsis ix).
         * destruct (result_den V x nix Hcan Hwf Harr m Hm_mem (sel_entries V x nix m) (Permutation_refl _)
-                      (nil_keys_sorted _ Hknil Hknd)) as [Hc Hden].
+                      (nil_keys_sorted _ Hknil Hknd)) as [Hc [Hden Hent]].
           fold rs in Hc, Hden. rewrite Eos in Hc, Hden.
-          split; [reflexivity|]. split; [reflexivity|]. split; [exact Hc|exact Hden].
+          fold rs in Hent. rewrite Eos in Hent.
+          split; [reflexivity|]. split; [reflexivity|]. split; [exact Hc|]. split; [exact Hden|exact Hent].
         * destruct (sel_entries V x nix m) as [|[k v] r] eqn:Ese.
           -- split; [reflexivity|]. symmetry. apply den_unstored. intros Hin.
              assert (exists v, In (src_of rs [], v) (entries x)) as [v Hv].
@@ -919,17 +948,37 @@ Section GetitemBasic.
             rewrite (pruned_rows_match nix sh _ 0 Hwf Hna Hrp) in Hmp.
             rewrite (pruned_rows_match nix sh _ 0 Hwf Hna Hrq) in Hmq.
             apply (build_mono nix sh false _ _ 0 Hwf Epos Hmp Hmq). apply pts_lex; assumption. }
-          destruct (result_den V x nix Hcan Hwf Harr m Hm_mem _ (Permutation_refl _) Hss) as [Hc Hden].
+          destruct (result_den V x nix Hcan Hwf Harr m Hm_mem _ (Permutation_refl _) Hss) as [Hc [Hden Hent]].
           fold rs in Hc, Hden. rewrite Eos in Hc, Hden.
-          split; [reflexivity|]. split; [reflexivity|]. split; [exact Hc|exact Hden].
+          fold rs in Hent. rewrite Eos in Hent.
+          split; [reflexivity|]. split; [reflexivity|]. split; [exact Hc|]. split; [exact Hden|exact Hent].
         * (* sorted = False: the constructor sorts *)
           assert (Hss : StronglySorted lex_lt (map fst (sort_entries (sel_entries V x nix m)))).
           { apply (sort_sorted V (length (d0 :: osh))); [|assumption].
             apply Forall_forall. intros y Hy. apply (in_range_length (d0 :: osh) (fst y)).
             apply (Hkr (fst y)). apply in_map. exact Hy. }
-          destruct (result_den V x nix Hcan Hwf Harr m Hm_mem _ (sort_perm V _) Hss) as [Hc Hden].
+          destruct (result_den V x nix Hcan Hwf Harr m Hm_mem _ (sort_perm V _) Hss) as [Hc [Hden Hent]].
           fold rs in Hc, Hden. rewrite Eos in Hc, Hden.
-          split; [reflexivity|]. split; [reflexivity|]. split; [exact Hc|exact Hden].
+          fold rs in Hent. rewrite Eos in Hent.
+          split; [reflexivity|]. split; [reflexivity|]. split; [exact Hc|]. split; [exact Hden|exact Hent].
+  Qed.
+
+  Theorem coo_getitem_basic_proof (kf : nat -> nat) (x : coo V) (ix : index) :
+    canonical V x -> shape_okb (c_shape x) = true -> no_zero_step ix = true -> basic ix = true ->
+    match np_index (c_shape x) ix with
+    | Raise e => getitem kf x ix = Raise e /\ e = IndexError
+    | Ok (sh', g) =>
+      match getitem kf x ix with
+      | Ok (GArr y) => c_shape y = sh' /\ c_fill y = c_fill x /\ canonical V y
+                       /\ forall j, in_range sh' j -> den y j = den x (g j)
+      | Ok (GScalar v) => sh' = [] /\ v = den x (g [])
+      | Raise _ => False
+      end
+    end.
+  Proof.
+    intros Hcan Hsh Hz Hb. pose proof (coo_getitem_basic_strong kf x ix Hcan Hsh Hz Hb) as H.
+    destruct (np_index (c_shape x) ix) as [[sh' g]|e]; [|exact H].
+    destruct (getitem kf x ix) as [[v|y]|e]; [exact H| |exact H]. tauto.
   Qed.
 End GetitemBasic.
 
